@@ -28,12 +28,33 @@ pub fn concrete_id(c: u8) -> ResourceId {
         3 => ResourceId::new_with_dynamic_id::<Cell1>(7),
         4 => ResourceId::new_with_dynamic_id::<Cell0>(0x1_0000_0001),
         5 => ResourceId::new_with_dynamic_id::<Cell1>(u64::MAX - 0xFF),
-        _ => panic!("harness: bad concrete resource index"),
+        // sweep classes (C19 relabelling sweep): 250 further ids, alternating between the two types
+        k => {
+            let k = (k - NCONCRETE as u8) as u64;
+            if k % 2 == 0 {
+                ResourceId::new_with_dynamic_id::<Cell0>(100 + k / 2)
+            } else {
+                ResourceId::new_with_dynamic_id::<Cell1>(100 + k / 2)
+            }
+        }
     }
 }
 
 fn is_cell0(c: u8) -> bool {
-    matches!(c, 0 | 1 | 4)
+    matches!(c, 0 | 1 | 4) || (c >= NCONCRETE as u8 && (c - NCONCRETE as u8) % 2 == 0)
+}
+
+/// `new_world` plus every sweep class.
+pub fn new_world_wide() -> World {
+    let mut w = new_world();
+    for c in NCONCRETE as u8..=255 {
+        if is_cell0(c) {
+            w.insert_by_id(concrete_id(c), Cell0(c as u64));
+        } else {
+            w.insert_by_id(concrete_id(c), Cell1(c as u64));
+        }
+    }
+    w
 }
 
 pub const INIT_VALUES: [u64; NCONCRETE] = [11, 22, 33, 44, 55, 66];
